@@ -35,7 +35,7 @@ ASSUMPTIONS = [
     "the heap is shared as in Python: in-place mutation of a value object through a proxy is visible wherever that object is referenced; only *bindings* are per context",
     "threads realise sibling contexts (a new thread starts with an empty context); parent/child is realised with copy_context and asyncio.create_task",
 ]
-TIERS = {"quick": dict(nshards=16, tuples=60, shape=[(2, 3)], thread_scheds=25, async_scheds=15, stress_ops=0),
+TIERS = {"quick": dict(nshards=16, tuples=120, shape=[(2, 3)], thread_scheds=80, async_scheds=50, stress_ops=0),
          "thorough": dict(nshards=64, tuples=260, shape=[(2, 4), (3, 3), (2, 3)], thread_scheds=120, async_scheds=60, stress_ops=6000)}
 EXHAUSTIVE_SUBSPACES = {"quick": ["all interleavings of 2 contexts x 3 operations for each sampled operation tuple"],
                         "thorough": ["all interleavings of 2x4 and 3x3 operations for each sampled operation tuple"]}
